@@ -2,11 +2,12 @@ import io
 from . import ref
 
 
-def replay_writes(lengths, end):
+def replay_writes(lengths, end, data=None):
     from cardutil import mciipm
     f = io.BytesIO()
     blk = mciipm.Block1014(f)
-    data = [ref.content(n, i) for i, n in enumerate(lengths)]
+    given = data or []
+    data = [given[i] if i < len(given) and given[i] is not None and len(given[i]) == n else ref.content(n, i) for i, n in enumerate(lengths)]
     for d in data:
         blk.write(d)
     if end == 'finalise':
